@@ -697,17 +697,17 @@ Qed.
 (* THE PROPERTY for datetime_between: every pair of bounds (offsets, fractional seconds, equal),
    every draw, every presentation zone incl. timezone: False: start <= v <= end as the instants
    the user wrote; reversed bounds are a DataGenError *)
-Lemma datetime_between_bounds c s e tz num den ps pe :
-  parse_datetimespec c s = Ok ps -> parse_datetimespec c e = Ok pe -> 0 <= num < den ->
+Lemma datetime_between_bounds cs ce s e tz num den ps pe :
+  parse_datetimespec cs s = Ok ps -> parse_datetimespec ce e = Ok pe -> 0 <= num < den ->
   (instant pe < instant ps ->
-     forall d, exists m, datetime_between c s e tz d den = Err (DGE m)) /\
+     forall d, exists m, datetime_between cs ce s e tz d den = Err (DGE m)) /\
   (instant ps <= instant pe ->
-     exists v o, datetime_between c s e tz (Some num) den = Ok (v, o) /\
+     exists v o, datetime_between cs ce s e tz (Some num) den = Ok (v, o) /\
                  instant ps <= v <= instant pe /\ (o = tz \/ o = bound_zone tz)).
 Proof.
   intros Hs He Hnum.
-  destruct (datetime_fn_instant c s ps Hs) as (s' & Hds & His & _).
-  destruct (datetime_fn_instant c e pe He) as (e' & Hde & Hie & _).
+  destruct (datetime_fn_instant cs s ps Hs) as (s' & Hds & His & _).
+  destruct (datetime_fn_instant ce e pe He) as (e' & Hde & Hie & _).
   unfold datetime_between. rewrite Hds, Hde. cbn [bind]. rewrite His, Hie. split.
   - intros Hlt d. destruct (instant pe <? instant ps) eqn:E; [|contra]. eexists; reflexivity.
   - intros Hle. destruct (instant pe <? instant ps) eqn:E; [contra|].
@@ -722,15 +722,15 @@ Qed.
 
 (* on whole-second starts with the end in a later second the clamp is the identity: the value is
    the one Faker drew *)
-Lemma datetime_between_unclamped c s e tz num den ps pe :
-  parse_datetimespec c s = Ok ps -> parse_datetimespec c e = Ok pe -> 0 <= num < den ->
+Lemma datetime_between_unclamped cs ce s e tz num den ps pe :
+  parse_datetimespec cs s = Ok ps -> parse_datetimespec ce e = Ok pe -> 0 <= num < den ->
   instant ps mod US = 0 -> floor_sec (instant ps) < floor_sec (instant pe) ->
-  datetime_between c s e tz (Some num) den =
+  datetime_between cs ce s e tz (Some num) den =
     Ok (faker_dt_between (floor_sec (instant ps)) (floor_sec (instant pe)) num den, tz).
 Proof.
   intros Hs He Hnum Hwhole Hlater.
-  destruct (datetime_fn_instant c s ps Hs) as (s' & Hds & His & _).
-  destruct (datetime_fn_instant c e pe He) as (e' & Hde & Hie & _).
+  destruct (datetime_fn_instant cs s ps Hs) as (s' & Hds & His & _).
+  destruct (datetime_fn_instant ce e pe He) as (e' & Hde & Hie & _).
   unfold datetime_between. rewrite Hds, Hde. cbn [bind]. rewrite His, Hie.
   pose proof (floor_sec_bounds (instant ps)) as Hbs.
   pose proof (floor_sec_bounds (instant pe)) as Hbe.
@@ -743,17 +743,17 @@ Proof.
   rewrite clamp_id; [reflexivity|]. unfold US in *. lia.
 Qed.
 
-Lemma datetime_between_possible c s e tz num den v :
-  0 <= num < den -> run_fn (FDateTime c s e tz) (Some num) den = Ok v ->
-  possible (FDateTime c s e tz) v = true.
+Lemma datetime_between_possible cs ce s e tz num den v :
+  0 <= num < den -> run_fn (FDateTime cs ce s e tz) (Some num) den = Ok v ->
+  possible (FDateTime cs ce s e tz) v = true.
 Proof.
   intros Hnum Hr. cbn [run_fn] in Hr.
-  destruct (datetime_between c s e tz (Some num) den) as [[us o]|] eqn:Edb; cbn [bind] in Hr;
+  destruct (datetime_between cs ce s e tz (Some num) den) as [[us o]|] eqn:Edb; cbn [bind] in Hr;
     [|discriminate].
   inversion Hr; subst v; clear Hr. cbn [possible].
   unfold datetime_between in Edb.
-  destruct (datetime_fn c s) as [s'|] eqn:Es; cbn [bind] in Edb; [|discriminate].
-  destruct (datetime_fn c e) as [e'|] eqn:Ee; cbn [bind] in Edb; [|discriminate].
+  destruct (datetime_fn cs s) as [s'|] eqn:Es; cbn [bind] in Edb; [|discriminate].
+  destruct (datetime_fn ce e) as [e'|] eqn:Ee; cbn [bind] in Edb; [|discriminate].
   destruct (instant e' <? instant s') eqn:E; [discriminate|].
   cbn [draw_below] in Edb. destruct ((0 <=? num) && (num <? den)); [|discriminate].
   inversion Edb as [Hc]. clear Edb.
@@ -770,6 +770,48 @@ Proof.
     + rewrite Hrefl. cbn [orb]. rewrite !andb_true_iff. splits; lia.
 Qed.
 
+(* what each datetime bound denotes: the instant as written, midnight (UTC) of the day, the clock
+   reading, or the clock reading plus the relative offset (years = 365.24 d, months = 30.42 d) *)
+Lemma parse_datetimespec_meaning c :
+  (forall w o, exists ps, parse_datetimespec c (SStamp (mkStamp w o)) = Ok ps /\
+                          instant ps = instant (mkStamp w o)) /\
+  (forall d, exists ps, parse_datetimespec c (SDate d) = Ok ps /\ instant ps = d * DAYUS) /\
+  (exists ps, parse_datetimespec c SToday = Ok ps /\ instant ps = today c * DAYUS) /\
+  (exists ps, parse_datetimespec c SNow = Ok ps /\ instant ps = now_us c) /\
+  (forall y mo w d h mi s, exists ps,
+      parse_datetimespec c (SRel y mo w d h mi s) = Ok ps /\
+      instant ps = now_us c + rel_seconds y mo w d h mi s * US).
+Proof.
+  splits.
+  - intros w [o|]; eexists; (split; [reflexivity|]); unfold instant; cbn [wall off]; lia.
+  - intros d. eexists. split; [reflexivity|]. unfold instant; cbn [wall off]; lia.
+  - eexists. split; [reflexivity|]. unfold instant; cbn [wall off]; lia.
+  - eexists. split; [reflexivity|]. unfold instant; cbn [wall off]; lia.
+  - intros. eexists. split; [reflexivity|]. unfold instant; cbn [wall off]; lia.
+Qed.
+
+(* relative bounds spelled out: both bounds relative to (possibly different) clock readings *)
+Lemma datetime_between_relative cs ce y1 mo1 w1 d1 h1 mi1 s1 y2 mo2 w2 d2 h2 mi2 s2 tz num den :
+  0 <= num < den ->
+  let a := now_us cs + rel_seconds y1 mo1 w1 d1 h1 mi1 s1 * US in
+  let b := now_us ce + rel_seconds y2 mo2 w2 d2 h2 mi2 s2 * US in
+  (b < a -> forall d, exists m,
+      datetime_between cs ce (SRel y1 mo1 w1 d1 h1 mi1 s1) (SRel y2 mo2 w2 d2 h2 mi2 s2) tz d den
+      = Err (DGE m)) /\
+  (a <= b -> exists v o,
+      datetime_between cs ce (SRel y1 mo1 w1 d1 h1 mi1 s1) (SRel y2 mo2 w2 d2 h2 mi2 s2) tz
+                       (Some num) den = Ok (v, o) /\ a <= v <= b).
+Proof.
+  intros Hnum a b.
+  destruct (datetime_between_bounds cs ce (SRel y1 mo1 w1 d1 h1 mi1 s1) (SRel y2 mo2 w2 d2 h2 mi2 s2)
+              tz num den _ _ eq_refl eq_refl Hnum) as (Hrev & Hok).
+  assert (Ha : instant (mkStamp a (Some 0)) = a) by (unfold instant; cbn [wall off]; lia).
+  assert (Hb : instant (mkStamp b (Some 0)) = b) by (unfold instant; cbn [wall off]; lia).
+  fold a in Hrev, Hok. fold b in Hrev, Hok. rewrite Ha, Hb in Hrev, Hok. split.
+  - exact Hrev.
+  - intros Hle. destruct (Hok Hle) as (v & o & Hr & Hv & _). exists v, o. split; assumption.
+Qed.
+
 (* ------------------------------------------------------------------ regressions: the witnesses of
    the repaired defects K4, K10, K11, K12 now satisfy the property *)
 
@@ -781,8 +823,8 @@ Lemma regression_offset :
   let c := mkClock 0 0 in
   let s := mkStamp w_10h (Some (-18000)) in
   let e := mkStamp (w_10h + 8 * 3600 * US) (Some 0) in
-  datetime_between c (SStamp s) (SStamp e) (Some 0) (Some 0) 1024 = Ok (instant s, Some 0) /\
-  datetime_between c (SStamp s) (SStamp e) (Some 0) (Some 1023) 1024
+  datetime_between c c (SStamp s) (SStamp e) (Some 0) (Some 0) 1024 = Ok (instant s, Some 0) /\
+  datetime_between c c (SStamp s) (SStamp e) (Some 0) (Some 1023) 1024
     = Ok (instant e - 10546875, Some 0).
 Proof. cbv zeta. split; vm_compute; reflexivity. Qed.
 
@@ -791,7 +833,7 @@ Lemma regression_offset_valid_range_accepted :
   let c := mkClock 0 0 in
   let s := mkStamp w_10h (Some 18000) in
   let e := mkStamp (w_10h - 4 * 3600 * US) (Some 0) in
-  datetime_between c (SStamp s) (SStamp e) (Some 0) (Some 512) 1024
+  datetime_between c c (SStamp s) (SStamp e) (Some 0) (Some 512) 1024
     = Ok (instant s + 1800 * US, Some 0).
 Proof. cbv zeta. vm_compute. reflexivity. Qed.
 
@@ -799,7 +841,7 @@ Proof. cbv zeta. vm_compute. reflexivity. Qed.
 Lemma regression_equal_bounds :
   let c := mkClock 0 0 in
   let s := mkStamp w_10h None in
-  datetime_between c (SStamp s) (SStamp s) (Some 0) (Some 512) 1024 = Ok (instant s, Some 0).
+  datetime_between c c (SStamp s) (SStamp s) (Some 0) (Some 512) 1024 = Ok (instant s, Some 0).
 Proof. cbv zeta. vm_compute. reflexivity. Qed.
 
 (* K11: start 10:00:00.9: the lowest draw is clamped to the start *)
@@ -807,7 +849,7 @@ Lemma regression_subsecond_start :
   let c := mkClock 0 0 in
   let s := mkStamp (w_10h + 900000) None in
   let e := mkStamp (w_10h + 5 * US) None in
-  datetime_between c (SStamp s) (SStamp e) (Some 0) (Some 0) 1024 = Ok (instant s, Some 0).
+  datetime_between c c (SStamp s) (SStamp e) (Some 0) (Some 0) 1024 = Ok (instant s, Some 0).
 Proof. cbv zeta. vm_compute. reflexivity. Qed.
 
 (* K12: probabilities 0% and 50: option 2 for the lowest and the highest draw *)
@@ -822,6 +864,6 @@ Lemma regression_timezone_false :
   let c := mkClock 0 0 in
   let s := mkStamp (w_10h + 900000) None in
   let e := mkStamp (w_10h + 3 * US) None in
-  datetime_between c (SStamp s) (SStamp e) None (Some 0) 1024 = Ok (instant s, None) /\
-  datetime_between c (SStamp s) (SStamp e) None (Some 512) 1024 = Ok (w_10h + 1500000, None).
+  datetime_between c c (SStamp s) (SStamp e) None (Some 0) 1024 = Ok (instant s, None) /\
+  datetime_between c c (SStamp s) (SStamp e) None (Some 512) 1024 = Ok (w_10h + 1500000, None).
 Proof. cbv zeta. split; vm_compute; reflexivity. Qed.
